@@ -16,24 +16,36 @@ Import ListNotations.
 (* ---- 1a. SDPA.check, shape part (fix 9ed3615) ------------------------------------------------------------------------ *)
 (* repaired: every accepted match can be lowered (sdpa_via_mha accepts it, with a static head count): the pipeline cannot
    return a model containing the intermediate ai.onnxruntime._fusion::SDPA op *)
-Theorem C19_sdpa_check_fixed_lowerable : forall kb q k v m, sdpa_check true kb q k v m = true ->
+Theorem C19_sdpa_check_fixed_lowerable : forall st kb q k v m, sdpa_check true st kb q k v m = true ->
   exists h, sdpa_via_mha_check kb q k v = Some h /\ (0 <= h)%Z.
 Proof. exact sdpa_check_fixed_lowerable. Qed.
 Print Assumptions C19_sdpa_check_fixed_lowerable.
 (* FINDING (fixed, C19:pipeline:sdpa-not-lowered-with-symbolic-num-heads): as read a symbolic head count is accepted and nothing lowers it *)
-Theorem C19_sdpa_check_as_read_refuted : exists kb q k v, sdpa_check false kb q k v None = true /\ sdpa_via_mha_check kb q k v = None
-  /\ sdpa_check true kb q k v None = false.
+Theorem C19_sdpa_check_as_read_refuted : exists kb q k v, sdpa_check false false kb q k v None = true /\ sdpa_via_mha_check kb q k v = None
+  /\ sdpa_check true false kb q k v None = false.
 Proof. exact sdpa_check_as_read_refuted. Qed.
 Print Assumptions C19_sdpa_check_as_read_refuted.
 (* repaired, static dims: an accepted mask NumPy-broadcasts INTO the score shape [B,H,S,T] (it cannot enlarge batch / heads) *)
-Theorem C19_sdpa_mask_fixed_into_score : forall ms B H S T,
+Theorem C19_sdpa_mask_fixed_into_score : forall st ms B H S T,
   (forall d, In d ms -> 0 <= d)%Z -> (0 <= B)%Z -> (0 <= H)%Z -> (0 <= S)%Z -> (0 <= T)%Z ->
-  mask_into_score ms [B; H; S; T] = true -> numpy_broadcastable (pad4 ms) [B; H; S; T] = true.
+  mask_into_score st ms [B; H; S; T] = true -> numpy_broadcastable (pad4 ms) [B; H; S; T] = true.
 Proof. exact sdpa_mask_fixed_into_score. Qed.
 Print Assumptions C19_sdpa_mask_fixed_into_score.
-Example C19_sdpa_check_fires : sdpa_check true false (Some [-2; 4; -3; 8]%Z) (Some [-2; -4; 4; 8]%Z) (Some [-2; 4; -4; 8]%Z) (Some (Some [1; 1; -4]%Z)) = true
-  /\ sdpa_check true true (Some [1; 2; 3; 4]%Z) (Some [1; 2; 3; 4]%Z) (Some [1; 2; 3; 4]%Z) (Some (Some [3; 1; 3; 3]%Z)) = false
-  /\ sdpa_check false true (Some [1; 2; 3; 4]%Z) (Some [1; 2; 3; 4]%Z) (Some [1; 2; 3; 4]%Z) (Some (Some [3; 1; 3; 3]%Z)) = true.
+(* ... but with SYMBOLIC score dims the committed fix compares nothing (known finding, found by the thorough tier):
+   [strict] = true is the proposed repair ready/C19_08 -- every static mask dim is 1 or is the score dim, for all dim codes *)
+Theorem C19_sdpa_mask_strict_static_dims : forall ms B H S T, length ms = 4%nat ->
+  mask_into_score true ms [B; H; S; T] = true ->
+  Forall2 (fun m c => (0 <= m)%Z -> m = 1%Z \/ m = c) ms [B; H; S; T].
+Proof. exact sdpa_mask_strict_static_dims. Qed.
+Print Assumptions C19_sdpa_mask_strict_static_dims.
+Theorem C19_sdpa_mask_symbolic_refuted : exists q k v ms, sdpa_check true false true q k v (Some (Some ms)) = true
+  /\ sdpa_check true true true q k v (Some (Some ms)) = false
+  /\ nth 0 ms 0%Z = 2%Z /\ (forall b, q = Some b -> nth 0 b 0%Z < 0)%Z.
+Proof. exact sdpa_mask_symbolic_refuted. Qed.
+Print Assumptions C19_sdpa_mask_symbolic_refuted.
+Example C19_sdpa_check_fires : sdpa_check true false false (Some [-2; 4; -3; 8]%Z) (Some [-2; -4; 4; 8]%Z) (Some [-2; 4; -4; 8]%Z) (Some (Some [1; 1; -4]%Z)) = true
+  /\ sdpa_check true false true (Some [1; 2; 3; 4]%Z) (Some [1; 2; 3; 4]%Z) (Some [1; 2; 3; 4]%Z) (Some (Some [3; 1; 3; 3]%Z)) = false
+  /\ sdpa_check false false true (Some [1; 2; 3; 4]%Z) (Some [1; 2; 3; 4]%Z) (Some [1; 2; 3; 4]%Z) (Some (Some [3; 1; 3; 3]%Z)) = true.
 Proof. repeat split; vm_compute; reflexivity. Qed.
 
 (* ---- 1b. cos/sin cache rows (fix 48e3d56) ----------------------------------------------------------------------------- *)
